@@ -74,7 +74,10 @@ var (
 // cancelAt (cancelAt = 0: cancelled from the first tick or poll on);
 // cancelAt < 0 never fires.
 func NewSimContext(cancelAt int64) *SimContext {
-	return &SimContext{done: make(chan struct{}), CancelAt: cancelAt, ownerTask: -1}
+	// PanicAfter has a generous default: whatever made the context fire (a
+	// plan, the hard cap), an interpreter that is still running 100000
+	// instructions later is interrupted instead of hanging the worker.
+	return &SimContext{done: make(chan struct{}), CancelAt: cancelAt, ownerTask: -1, PanicAfter: 100000}
 }
 
 // Rearm resets the context for another run (fresh channel if it had fired).
